@@ -1,1 +1,499 @@
-// property level lemmas
+// ===================== property level lemmas: the statements of properties.jsonl over the contracts =====================
+// Each lemma takes the *postcondition relations* (rinter_post, rdiff_post, conj_post, ...) as hypotheses, so it holds for any
+// implementation meeting the contracts; the exec functions are proved against those relations in m_bound / m_range / m_conj.
+
+/// membership in an optional result (None = the empty set)
+pub open spec fn rin(r: Option<Range>, v: VKey) -> bool { r matches Some(x) && rwithin(x, v) }
+pub open spec fn rsat_in(r: Option<Range>, v: VKey) -> bool { r matches Some(x) && rsat(x, v) }
+
+// ---------------------------------------------------------------- C04
+pub proof fn lemma_c04_total_order(a: Version, b: Version, c: Version)
+    ensures
+        ver_cmp(a, a) == Ordering::Equal,                                   // reflexive
+        ver_cmp(a, b) == flip(ver_cmp(b, a)),                               // antisymmetric + total (three-valued)
+        (ver_cmp(a, b) != Ordering::Greater && ver_cmp(b, c) != Ordering::Greater) ==> ver_cmp(a, c) != Ordering::Greater,   // transitive
+        (ver_cmp(a, b) != Ordering::Greater && ver_cmp(b, c) != Ordering::Greater && (ver_cmp(a, b) == Ordering::Less || ver_cmp(b, c) == Ordering::Less)) ==> ver_cmp(a, c) == Ordering::Less,
+        (ver_cmp(a, b) == Ordering::Equal && ver_cmp(b, c) == Ordering::Equal) ==> ver_cmp(a, c) == Ordering::Equal,
+{
+    lemma_k_refl(key(a)); lemma_k_flip(key(a), key(b)); lemma_k_flip(key(b), key(c)); lemma_k_flip(key(a), key(c));
+    if ver_cmp(a, b) != Ordering::Greater && ver_cmp(b, c) != Ordering::Greater { lemma_k_trans(key(a), key(b), key(c)); }
+    if ver_cmp(a, b) == Ordering::Equal && ver_cmp(b, c) == Ordering::Equal { lemma_k_trans(key(c), key(b), key(a)); }
+}
+/// `==` (the spec `Version::eq` is proved against) holds exactly when the comparison is Equal, and then the hash feed agrees
+pub proof fn lemma_c04_eq_iff_equal(a: Version, b: Version)
+    ensures PartialEqSpec::eq_spec(&a, &b) <==> ver_cmp(a, b) == Ordering::Equal,
+            PartialEqSpec::eq_spec(&a, &b) ==> hash_feed(key(a)) == hash_feed(key(b)),
+            PartialOrdSpec::partial_cmp_spec(&a, &b) == Some(OrdSpec::cmp_spec(&a, &b)),
+{ if ver_cmp(a, b) == Ordering::Equal { lemma_eq_same_feed(a, b); } }
+/// build metadata: two versions that differ only in `build` are Equal, hash alike, and compare identically to everything
+pub proof fn lemma_c04_build_irrelevant(a: Version, b: Version, c: Version)
+    requires a.major == b.major, a.minor == b.minor, a.patch == b.patch, a.pre_release@ == b.pre_release@,
+    ensures ver_cmp(a, b) == Ordering::Equal, ver_cmp(a, c) == ver_cmp(b, c), ver_cmp(c, a) == ver_cmp(c, b), hash_feed(key(a)) == hash_feed(key(b)),
+{ lemma_k_refl(key(a)); assert(key(a) == key(b)); }
+/// the spec functions say what SemVer 2.0.0 section 11 says (sanity of the specification itself)
+pub proof fn lemma_c04_spec_examples(x: u64, y: u64, s: String, t: String, p: Seq<Identifier>, i: Identifier, a: VKey)
+    ensures
+        ident_cmp(Identifier::Numeric(x), Identifier::AlphaNumeric(s)) == Ordering::Less,                 // numeric < alphanumeric
+        ident_cmp(Identifier::Numeric(x), Identifier::Numeric(y)) == int_cmp(x as int, y as int),          // numerics by value
+        ident_cmp(Identifier::AlphaNumeric(s), Identifier::AlphaNumeric(t)) == str_cmp(s@, t@),            // alphanumerics lexically
+        pre_cmp(p, p.push(i)) == Ordering::Less,                                                           // a strict prefix is lower
+        a.pre.len() > 0 ==> kcmp(a, VKey { pre: Seq::empty(), ..a }) == Ordering::Less,                    // a release is above its prereleases
+{ lemma_prefix_lower(p, i); }
+pub proof fn lemma_prefix_lower(p: Seq<Identifier>, i: Identifier)
+    ensures pre_cmp(p, p.push(i)) == Ordering::Less
+    decreases p.len()
+{
+    let q = p.push(i);
+    if p.len() > 0 {
+        assert(q[0] == p[0]);
+        assert(q.drop_first() =~= p.drop_first().push(i));
+        lemma_ident_refl(p[0]);
+        lemma_prefix_lower(p.drop_first(), i);
+    }
+}
+
+// ---------------------------------------------------------------- C16
+pub proof fn lemma_c16_build_irrelevant(a: Version, a2: Version, b: Version)
+    requires a.major == a2.major, a.minor == a2.minor, a.patch == a2.patch, a.pre_release@ == a2.pre_release@,
+    ensures diff_spec(key(a), key(b)) == diff_spec(key(a2), key(b)), diff_spec(key(b), key(a)) == diff_spec(key(b), key(a2)),
+{ assert(key(a) == key(a2)); }
+
+// ---------------------------------------------------------------- C03
+pub proof fn lemma_c03_release_unaffected(bs: BoundSet, v: VKey)
+    requires v.pre.len() == 0
+    ensures sat(bs, v) == within(bs, v)
+{}
+/// build metadata on the version never changes the answer (every spec is a function of `key`, which has no build field),
+/// and build metadata on a bound does not either: two intervals whose bounds have the same keys admit the same versions
+pub proof fn lemma_c03_build_irrelevant(bs: BoundSet, bs2: BoundSet, a: Version, b: Version)
+    requires key(a) == key(b), cut_of(*bs.lower) == cut_of(*bs2.lower), cut_of(*bs.upper) == cut_of(*bs2.upper),
+    ensures sat(bs, key(a)) == sat(bs, key(b)), sat(bs, key(a)) == sat(bs2, key(a)),
+{
+    let v = key(a);
+    assert(optin(*bs.lower, v) == optin(*bs2.lower, v)) by { lemma_optin_by_cut(*bs.lower, *bs2.lower, v); }
+    assert(optin(*bs.upper, v) == optin(*bs2.upper, v)) by { lemma_optin_by_cut(*bs.upper, *bs2.upper, v); }
+}
+pub proof fn lemma_optin_by_cut(a: Bound, b: Bound, v: VKey)
+    requires cut_of(a) == cut_of(b)
+    ensures optin(a, v) == optin(b, v)
+{}
+/// a prerelease satisfies an interval only through a bound that carries a prerelease tag on the same major.minor.patch,
+/// and (repr) that is exactly npm's rule over the comparators as written
+pub proof fn lemma_c03_gate_needs_same_tuple(bs: BoundSet, cs: Seq<KCmp>, v: VKey)
+    requires v.pre.len() > 0, sat(bs, v)
+    ensures optin(*bs.lower, v) || optin(*bs.upper, v),
+            repr(bs, cs) && wfk(v) ==> exists|i: int| 0 <= i < cs.len() && (#[trigger] cs[i]).k.pre.len() > 0 && same_tuple(cs[i].k, v),
+            (optin(*bs.lower, v) || optin(*bs.upper, v)) && within(bs, v) ==> sat(bs, v),    // once opted in, the bounds alone decide
+{
+    if repr(bs, cs) && wfk(v) { lemma_repr_sat(bs, cs, v); }
+}
+
+// ---------------------------------------------------------------- C07
+pub proof fn lemma_rin_inter(a: Range, b: Range, r: Option<Range>, v: VKey)
+    requires rinter_post(a, b, r)
+    ensures rin(r, v) <==> (rwithin(a, v) && rwithin(b, v))
+{}
+pub proof fn lemma_rin_diff(a: Range, b: Range, r: Option<Range>, v: VKey)
+    requires rdiff_post(a, b, r)
+    ensures rin(r, v) <==> (rwithin(a, v) && !rwithin(b, v))
+{}
+pub proof fn lemma_roverlap_sym(a: Range, b: Range)
+    ensures roverlap(a, b) == roverlap(b, a)
+{
+    if roverlap(a, b) {
+        let (i, j) = choose|i: int, j: int| 0 <= i < a.0@.len() && 0 <= j < b.0@.len() && boverlap(#[trigger] a.0@[i], #[trigger] b.0@[j]);
+        assert(boverlap(b.0@[j], a.0@[i]));
+    }
+    if roverlap(b, a) {
+        let (i, j) = choose|i: int, j: int| 0 <= i < b.0@.len() && 0 <= j < a.0@.len() && boverlap(#[trigger] b.0@[i], #[trigger] a.0@[j]);
+        assert(boverlap(a.0@[j], b.0@[i]));
+    }
+}
+pub proof fn lemma_c07_commutes(a: Range, b: Range, r1: Option<Range>, r2: Option<Range>, v: VKey)
+    requires rinter_post(a, b, r1), rinter_post(b, a, r2)
+    ensures (r1 is Some) == (r2 is Some), rin(r1, v) == rin(r2, v), rsat_in(r1, v) == rsat_in(r2, v),
+{
+    lemma_roverlap_sym(a, b);
+    lemma_pairs_sym(a.0@, b.0@, v);
+    lemma_any_pair_sat_all(a.0@, b.0@, v); lemma_any_pair_sat_all(b.0@, a.0@, v);
+}
+pub proof fn lemma_c07_idempotent(a: Range, r: Option<Range>, v: VKey)
+    requires rwf(a), a.0@.len() > 0, rinter_post(a, a, r)
+    ensures r is Some, rin(r, v) == rwithin(a, v), rsat_in(r, v) == rsat(a, v),
+{
+    let x = a.0@[0];
+    assert(bs_wf(x));
+    assert(boverlap(x, x));
+    assert(roverlap(a, a));
+    lemma_any_pair_sat_all(a.0@, a.0@, v);
+    // sat: a pair (i, j) with v within both and a gate open on one side; take (i, i) resp. the side whose gate is open
+    if rsat(a, v) { let i = choose|i: int| 0 <= i < a.0@.len() && i < a.0@.len() && sat(#[trigger] a.0@[i], v); assert(pair_sat(a.0@[i], a.0@[i], v)); }
+    if rsat_in(r, v) {
+        let (i, j) = choose|i: int, j: int| 0 <= i < a.0@.len() && 0 <= j < a.0@.len() && pair_sat(#[trigger] a.0@[i], #[trigger] a.0@[j], v);
+        if gate(a.0@[i], v) { assert(sat(a.0@[i], v)); } else { assert(sat(a.0@[j], v)); }
+    }
+}
+/// for release versions the result is satisfied exactly when both operands are
+pub proof fn lemma_c07_release_sat(a: Range, b: Range, r: Option<Range>, v: VKey)
+    requires rinter_post(a, b, r), v.pre.len() == 0
+    ensures rsat_in(r, v) <==> (rsat(a, v) && rsat(b, v))
+{
+    lemma_rsat_release(a, v); lemma_rsat_release(b, v);
+    if r is Some { lemma_rsat_release(r->0, v); }
+}
+/// a prerelease satisfying both also satisfies the result; one satisfying the result lies within both and satisfies at least one
+pub proof fn lemma_c07_prerelease(a: Range, b: Range, r: Option<Range>, v: VKey)
+    requires rinter_post(a, b, r)
+    ensures (rsat(a, v) && rsat(b, v)) ==> rsat_in(r, v),
+            rsat_in(r, v) ==> rwithin(a, v) && rwithin(b, v) && (rsat(a, v) || rsat(b, v)),
+{
+    lemma_any_pair_sat_all(a.0@, b.0@, v);
+    if rsat(a, v) && rsat(b, v) {
+        let i = choose|i: int| 0 <= i < a.0@.len() && i < a.0@.len() && sat(#[trigger] a.0@[i], v);
+        let j = choose|j: int| 0 <= j < b.0@.len() && j < b.0@.len() && sat(#[trigger] b.0@[j], v);
+        assert(pair_sat(a.0@[i], b.0@[j], v));
+        assert(boverlap(a.0@[i], b.0@[j])) by { if !boverlap(a.0@[i], b.0@[j]) { lemma_boverlap_none(a.0@[i], b.0@[j], v); } }
+    }
+    if rsat_in(r, v) {
+        let (i, j) = choose|i: int, j: int| 0 <= i < a.0@.len() && 0 <= j < b.0@.len() && pair_sat(#[trigger] a.0@[i], #[trigger] b.0@[j], v);
+        assert(within(a.0@[i], v) && within(b.0@[j], v));
+        if gate(a.0@[i], v) { assert(sat(a.0@[i], v)); } else { assert(sat(b.0@[j], v)); }
+    }
+}
+pub proof fn lemma_rsat_release(a: Range, v: VKey)
+    requires v.pre.len() == 0
+    ensures rsat(a, v) == rwithin(a, v)
+{
+    if rsat(a, v) { let i = choose|i: int| 0 <= i < a.0@.len() && i < a.0@.len() && sat(#[trigger] a.0@[i], v); assert(within(a.0@[i], v)); }
+    if rwithin(a, v) { let i = choose|i: int| 0 <= i < a.0@.len() && i < a.0@.len() && within(#[trigger] a.0@[i], v); assert(sat(a.0@[i], v)); }
+}
+pub proof fn lemma_pairs_sym(s: Seq<BoundSet>, t: Seq<BoundSet>, v: VKey)
+    ensures all_pairs_sat(s, t, v) == all_pairs_sat(t, s, v)
+{
+    if all_pairs_sat(s, t, v) {
+        let (i, j) = choose|i: int, j: int| 0 <= i < s.len() && 0 <= j < t.len() && pair_sat(#[trigger] s[i], #[trigger] t[j], v);
+        assert(pair_sat(t[j], s[i], v));
+    }
+    if all_pairs_sat(t, s, v) {
+        let (i, j) = choose|i: int, j: int| 0 <= i < t.len() && 0 <= j < s.len() && pair_sat(#[trigger] t[i], #[trigger] s[j], v);
+        assert(pair_sat(s[j], t[i], v));
+    }
+}
+
+// ---------------------------------------------------------------- C08
+pub proof fn lemma_c08_partition(a: Range, b: Range, i: Option<Range>, d: Option<Range>, v: VKey)
+    requires rinter_post(a, b, i), rdiff_post(a, b, d)
+    ensures rwithin(a, v) <==> (rin(i, v) || rin(d, v)), !(rin(i, v) && rin(d, v)),
+{}
+pub proof fn lemma_c08_release_sat(a: Range, b: Range, d: Option<Range>, v: VKey)
+    requires rdiff_post(a, b, d), v.pre.len() == 0
+    ensures rsat_in(d, v) <==> (rsat(a, v) && !rsat(b, v))
+{
+    lemma_rsat_release(a, v); lemma_rsat_release(b, v);
+    if d is Some { lemma_rsat_release(d->0, v); }
+}
+pub proof fn lemma_c08_disjoint_from_b(a: Range, b: Range, d: Option<Range>, v: VKey)
+    requires rdiff_post(a, b, d)
+    ensures !(rin(d, v) && rwithin(b, v)), d is None ==> (rwithin(a, v) ==> rwithin(b, v)),
+{}
+
+// ---------------------------------------------------------------- C09
+pub proof fn lemma_c09_symmetric(a: Range, b: Range, r: Option<Range>)
+    requires rinter_post(a, b, r)
+    ensures roverlap(a, b) == roverlap(b, a), roverlap(a, b) == (r is Some),      // allows_any == intersect.is_some() == the reverse
+{ lemma_roverlap_sym(a, b); }
+/// whenever it is false no version lies within (hence none satisfies) both
+pub proof fn lemma_c09_disjoint(a: Range, b: Range, v: VKey)
+    requires !roverlap(a, b)
+    ensures !(rwithin(a, v) && rwithin(b, v)), !(rsat(a, v) && rsat(b, v)),
+{
+    lemma_rsat_within(a, v); lemma_rsat_within(b, v);
+    if rwithin(a, v) && rwithin(b, v) {
+        let i = choose|i: int| 0 <= i < a.0@.len() && i < a.0@.len() && within(#[trigger] a.0@[i], v);
+        let j = choose|j: int| 0 <= j < b.0@.len() && j < b.0@.len() && within(#[trigger] b.0@[j], v);
+        if !boverlap(a.0@[i], b.0@[j]) { lemma_boverlap_none(a.0@[i], b.0@[j], v); }
+    }
+}
+pub proof fn lemma_c09_common_version(a: Range, b: Range, v: VKey)
+    requires rsat(a, v) && rsat(b, v) || rwithin(a, v) && rwithin(b, v)
+    ensures roverlap(a, b)
+{ if !roverlap(a, b) { lemma_c09_disjoint(a, b, v); } }
+pub proof fn lemma_rsat_within(a: Range, v: VKey)
+    ensures rsat(a, v) ==> rwithin(a, v)
+{ if rsat(a, v) { let i = choose|i: int| 0 <= i < a.0@.len() && i < a.0@.len() && sat(#[trigger] a.0@[i], v); assert(within(a.0@[i], v)); } }
+/// ranges that merely touch at an excluded endpoint do not overlap; ranges sharing an included endpoint do
+pub proof fn lemma_c09_touching(lt: BoundSet, le: BoundSet, gt: BoundSet, ge: BoundSet, v: Version)
+    requires
+        *lt.lower == Bound::Lower(Predicate::Unbounded), *lt.upper == Bound::Upper(Predicate::Excluding(v)),
+        *le.lower == Bound::Lower(Predicate::Unbounded), *le.upper == Bound::Upper(Predicate::Including(v)),
+        *gt.lower == Bound::Lower(Predicate::Excluding(v)), *gt.upper == Bound::Upper(Predicate::Unbounded),
+        *ge.lower == Bound::Lower(Predicate::Including(v)), *ge.upper == Bound::Upper(Predicate::Unbounded),
+    ensures !boverlap(lt, gt), !boverlap(lt, ge), !boverlap(le, gt), boverlap(le, ge),
+            !boverlap(gt, lt), !boverlap(ge, lt), !boverlap(gt, le), boverlap(ge, le),
+{ reveal(cut_cmp); lemma_k_refl(key(v)); }
+
+// ---------------------------------------------------------------- C10
+pub proof fn lemma_c10_contained(a: Range, b: Range, v: VKey)
+    requires rallows_all(a, b), b.0@.len() == 1, rwithin(b, v)
+    ensures rwithin(a, v)
+{
+    let (i, j) = choose|i: int, j: int| 0 <= i < a.0@.len() && 0 <= j < b.0@.len() && ballows_all(#[trigger] a.0@[i], #[trigger] b.0@[j]);
+    let k = choose|k: int| 0 <= k < b.0@.len() && k < b.0@.len() && within(#[trigger] b.0@[k], v);
+    assert(j == 0 && k == 0);
+    lemma_ballows_all(a.0@[i], b.0@[0], v);
+}
+pub proof fn lemma_c10_implies_any(a: Range, b: Range)
+    requires rallows_all(a, b), rwf(a), rwf(b)
+    ensures roverlap(a, b)
+{
+    let (i, j) = choose|i: int, j: int| 0 <= i < a.0@.len() && 0 <= j < b.0@.len() && ballows_all(#[trigger] a.0@[i], #[trigger] b.0@[j]);
+    let x = a.0@[i]; let y = b.0@[j];
+    lemma_cut4(cut_of(*x.lower), cut_of(*x.upper), cut_of(*y.lower), cut_of(*y.upper));
+    assert(boverlap(x, y));
+}
+pub proof fn lemma_c10_reflexive(a: Range)
+    requires rwf(a), a.0@.len() > 0
+    ensures rallows_all(a, a)
+{
+    let x = a.0@[0];
+    lemma_cut_refl(cut_of(*x.lower)); lemma_cut_refl(cut_of(*x.upper));
+    assert(ballows_all(x, x));
+}
+/// single alternatives on both sides: allows_all(A, B) is true exactly when B.difference(A) is None
+pub proof fn lemma_c10_difference_none(a: Range, b: Range, d: Option<Range>)
+    requires rwf(a), rwf(b), a.0@.len() == 1, b.0@.len() == 1, rdiff_post(b, a, d)
+    ensures rallows_all(a, b) <==> d is None
+{
+    let x = a.0@[0]; let y = b.0@[0];
+    lemma_cut4(cut_of(*x.lower), cut_of(*x.upper), cut_of(*y.lower), cut_of(*y.upper));
+    if rallows_all(a, b) {
+        let (i, j) = choose|i: int, j: int| 0 <= i < a.0@.len() && 0 <= j < b.0@.len() && ballows_all(#[trigger] a.0@[i], #[trigger] b.0@[j]);
+        assert(i == 0 && j == 0);
+    }
+    if bdiff_none(y, x) { assert(ballows_all(a.0@[0], b.0@[0])); }
+}
+
+// ---------------------------------------------------------------- C14
+/// the answer depends on the list only as a set, up to precedence-equal elements
+pub proof fn lemma_c14_order_independent(r: Range, s1: Seq<Version>, s2: Seq<Version>, m1: Version, m2: Version)
+    requires
+        forall|i: int| 0 <= i < s1.len() ==> exists|j: int| 0 <= j < s2.len() && #[trigger] s1[i] == #[trigger] s2[j],
+        forall|j: int| 0 <= j < s2.len() ==> exists|i: int| 0 <= i < s1.len() && #[trigger] s2[j] == #[trigger] s1[i],
+        rsat(r, key(m1)), exists|k: int| 0 <= k < s1.len() && m1 == #[trigger] s1[k],
+        rsat(r, key(m2)), exists|k: int| 0 <= k < s2.len() && m2 == #[trigger] s2[k],
+        forall|j: int| 0 <= j < s1.len() && rsat(r, key(#[trigger] s1[j])) ==> ver_cmp(s1[j], m1) != Ordering::Greater,
+        forall|j: int| 0 <= j < s2.len() && rsat(r, key(#[trigger] s2[j])) ==> ver_cmp(s2[j], m2) != Ordering::Greater,
+    ensures ver_cmp(m1, m2) == Ordering::Equal
+{
+    let k1 = choose|k: int| 0 <= k < s1.len() && m1 == #[trigger] s1[k];
+    let k2 = choose|k: int| 0 <= k < s2.len() && m2 == #[trigger] s2[k];
+    let j2 = choose|j: int| 0 <= j < s2.len() && s1[k1] == #[trigger] s2[j];
+    let j1 = choose|i: int| 0 <= i < s1.len() && s2[k2] == #[trigger] s1[i];
+    assert(ver_cmp(s2[j2], m2) != Ordering::Greater);
+    assert(ver_cmp(s1[j1], m1) != Ordering::Greater);
+    lemma_k_flip(key(m1), key(m2));
+}
+
+// ---------------------------------------------------------------- C15 (pure logic over the two postcondition relations)
+pub proof fn lemma_c15_commutative(a: Range, b: Range, ab: Option<Range>, ba: Option<Range>, v: VKey)
+    requires rinter_post(a, b, ab), rinter_post(b, a, ba)
+    ensures rin(ab, v) == rin(ba, v)
+{}
+/// (a ∩ b) ∩ c == a ∩ (b ∩ c); an empty intermediate result ends the computation with the empty set on that side
+pub proof fn lemma_c15_associative(a: Range, b: Range, c: Range, ab: Option<Range>, ab_c: Option<Range>, bc: Option<Range>, a_bc: Option<Range>, v: VKey)
+    requires rinter_post(a, b, ab), rinter_post(b, c, bc),
+        ab matches Some(x) ==> rinter_post(x, c, ab_c), ab is None ==> ab_c is None,
+        bc matches Some(y) ==> rinter_post(a, y, a_bc), bc is None ==> a_bc is None,
+    ensures rin(ab_c, v) == rin(a_bc, v), rin(ab_c, v) == (rwithin(a, v) && rwithin(b, v) && rwithin(c, v)),
+{
+    lemma_rin_inter(a, b, ab, v); lemma_rin_inter(b, c, bc, v);
+    if ab is Some { lemma_rin_inter(ab->0, c, ab_c, v); }
+    if bc is Some { lemma_rin_inter(a, bc->0, a_bc, v); }
+}
+pub proof fn lemma_c15_idempotent(a: Range, aa: Option<Range>, v: VKey)
+    requires rinter_post(a, a, aa)
+    ensures rin(aa, v) == rwithin(a, v)
+{}
+pub proof fn lemma_c15_a_minus_a(a: Range, d: Option<Range>, v: VKey)
+    requires rdiff_post(a, a, d)
+    ensures !rin(d, v)
+{}
+/// (A minus B) intersect B is empty
+pub proof fn lemma_c15_diff_disjoint(a: Range, b: Range, d: Option<Range>, db: Option<Range>, v: VKey)
+    requires rdiff_post(a, b, d), d matches Some(x) ==> rinter_post(x, b, db), d is None ==> db is None,
+    ensures !rin(db, v)
+{}
+/// A is the disjoint union of A intersect B and A minus B
+pub proof fn lemma_c15_partition(a: Range, b: Range, i: Option<Range>, d: Option<Range>, v: VKey)
+    requires rinter_post(a, b, i), rdiff_post(a, b, d)
+    ensures rwithin(a, v) == (rin(i, v) || rin(d, v)), !(rin(i, v) && rin(d, v)),
+{}
+/// A minus (A minus B) equals A intersect B
+pub proof fn lemma_c15_double_difference(a: Range, b: Range, d: Option<Range>, dd: Option<Range>, i: Option<Range>, v: VKey)
+    requires rdiff_post(a, b, d), rinter_post(a, b, i),
+        d matches Some(x) ==> rdiff_post(a, x, dd),
+        d is None ==> dd == Some(a),     // nothing to remove
+    ensures rin(dd, v) == rin(i, v)
+{}
+/// results are valid operands again (closure of the representation invariant): the quantifier "all expression trees" is
+/// discharged by the contracts being inductive, with no depth bound
+pub proof fn lemma_c06_rwf_closed(a: Range, b: Range, i: Option<Range>, d: Option<Range>)
+    requires rinter_post(a, b, i), rdiff_post(a, b, d)
+    ensures i matches Some(x) ==> rwf(x), d matches Some(x) ==> rwf(x),
+{}
+
+// ---------------------------------------------------------------- C01 / C02
+pub open spec fn flat(css: Seq<Seq<KCmp>>) -> Seq<KCmp> decreases css.len()
+{ if css.len() == 0 { Seq::empty() } else { flat(css.drop_last()) + css.last() } }
+pub proof fn lemma_flat_ok(css: Seq<Seq<KCmp>>, v: VKey)
+    ensures set_ok(flat(css), v) <==> forall|i: int| 0 <= i < css.len() ==> set_ok(#[trigger] css[i], v)
+    decreases css.len()
+{
+    if css.len() > 0 {
+        let init = css.drop_last();
+        lemma_flat_ok(init, v);
+        lemma_set_ok_concat(flat(init), css.last(), v);
+        if forall|i: int| 0 <= i < css.len() ==> set_ok(#[trigger] css[i], v) {
+            assert forall|i: int| 0 <= i < init.len() implies set_ok(#[trigger] init[i], v) by { assert(init[i] == css[i]); }
+            assert(set_ok(css[css.len() - 1], v));
+        }
+        if set_ok(flat(css), v) {
+            assert forall|i: int| 0 <= i < css.len() implies set_ok(#[trigger] css[i], v) by { if i < css.len() - 1 { assert(init[i] == css[i]); } }
+        }
+    }
+}
+pub open spec fn tagged(cs: Seq<KCmp>, v: VKey) -> bool { exists|i: int| 0 <= i < cs.len() && (#[trigger] cs[i]).k.pre.len() > 0 && same_tuple(cs[i].k, v) }
+pub proof fn lemma_flat_tagged(css: Seq<Seq<KCmp>>, v: VKey)
+    ensures tagged(flat(css), v) <==> exists|i: int| 0 <= i < css.len() && tagged(#[trigger] css[i], v)
+    decreases css.len()
+{
+    if css.len() > 0 {
+        let init = css.drop_last(); let last = css.last(); let f = flat(init); let t = f + last;
+        lemma_flat_tagged(init, v);
+        if tagged(t, v) {
+            let i = choose|i: int| 0 <= i < t.len() && (#[trigger] t[i]).k.pre.len() > 0 && same_tuple(t[i].k, v);
+            if i < f.len() { assert(t[i] == f[i]); assert(tagged(f, v)); let k = choose|k: int| 0 <= k < init.len() && tagged(#[trigger] init[k], v); assert(init[k] == css[k]); assert(tagged(css[k], v)); }
+            else { assert(t[i] == last[i - f.len()]); assert(tagged(last, v)); assert(tagged(css[css.len() - 1], v)); }
+        }
+        if exists|i: int| 0 <= i < css.len() && tagged(#[trigger] css[i], v) {
+            let k = choose|k: int| 0 <= k < css.len() && tagged(#[trigger] css[k], v);
+            if k < css.len() - 1 {
+                assert(init[k] == css[k]); assert(tagged(f, v));
+                let i = choose|i: int| 0 <= i < f.len() && (#[trigger] f[i]).k.pre.len() > 0 && same_tuple(f[i].k, v); assert(t[i] == f[i]);
+            } else {
+                let i = choose|i: int| 0 <= i < last.len() && (#[trigger] last[i]).k.pre.len() > 0 && same_tuple(last[i].k, v); assert(t[i + f.len()] == last[i]);
+            }
+        }
+    } else { assert(flat(css) =~= Seq::<KCmp>::empty()); }
+}
+/// C01/C02 for one alternative: the interval `intersect_all` returns represents the whole comparator list as npm reads it
+/// (garbage tokens carry no comparator); an empty result means npm admits nothing either (or there was no comparator at all)
+pub proof fn lemma_c01_alternative(s: Seq<Option<BoundSet>>, css: Seq<Seq<KCmp>>, r: Seq<BoundSet>)
+    requires s.len() == css.len(), conj_post(s, r),
+        forall|i: int| 0 <= i < s.len() ==> ((#[trigger] s[i]) matches Some(b) ==> bs_wf(b) && repr(b, css[i])),
+        forall|i: int| 0 <= i < s.len() ==> ((#[trigger] s[i]) is None ==> css[i].len() == 0),
+    ensures
+        r.len() == 1 ==> repr(r[0], flat(css)) && forall|v: VKey| wfk(v) ==> (sat(r[0], v) <==> #[trigger] npm_sat(flat(css), v)),
+        r.len() == 0 && has_some(s, s.len() as int) ==> forall|v: VKey| wfk(v) ==> !#[trigger] set_ok(flat(css), v),
+{
+    let n = s.len() as int;
+    assert forall|v: VKey| wfk(v) implies (all_within(s, n, v) <==> #[trigger] set_ok(flat(css), v)) by {
+        lemma_flat_ok(css, v);
+        if all_within(s, n, v) {
+            assert forall|i: int| 0 <= i < css.len() implies set_ok(#[trigger] css[i], v) by {
+                match s[i] { Some(b) => { assert(within(b, v)); }, None => { assert(css[i] =~= Seq::<KCmp>::empty()); } }
+            }
+        }
+        if set_ok(flat(css), v) {
+            assert forall|i: int| 0 <= i < n && i < s.len() implies ((#[trigger] s[i]) matches Some(b) ==> within(b, v)) by {
+                match s[i] { Some(b) => { assert(set_ok(css[i], v)); assert(within(b, v)); }, None => {} }
+            }
+        }
+    }
+    if r.len() == 1 {
+        let a = r[0];
+        assert forall|v: VKey| #![trigger within(a, v)] wfk(v) implies (within(a, v) <==> set_ok(flat(css), v)) && (within(a, v) ==> (gate(a, v) <==> set_gate(flat(css), v))) by {
+            assert(all_within(s, n, v) <==> set_ok(flat(css), v));
+            if within(a, v) && v.pre.len() > 0 {
+                lemma_flat_tagged(css, v);
+                assert(set_gate(flat(css), v) == tagged(flat(css), v));
+                if some_gate(s, n, v) {
+                    let i = choose|i: int| 0 <= i < n && i < s.len() && ((#[trigger] s[i]) matches Some(b) && gate(b, v));
+                    let b = s[i]->0;
+                    assert(within(b, v));
+                    assert(set_gate(css[i], v));
+                    assert(tagged(css[i], v));
+                }
+                if tagged(flat(css), v) {
+                    let k = choose|k: int| 0 <= k < css.len() && tagged(#[trigger] css[k], v);
+                    match s[k] { Some(b) => { assert(within(b, v)); assert(set_gate(css[k], v)); assert(gate(b, v)); assert(some_gate(s, n, v)); }, None => { assert(css[k].len() == 0); } }
+                }
+            }
+            if within(a, v) && v.pre.len() == 0 { assert(gate(a, v)); }
+        }
+        assert forall|v: VKey| wfk(v) implies (sat(r[0], v) <==> #[trigger] npm_sat(flat(css), v)) by { lemma_repr_sat(a, flat(css), v); }
+    }
+}
+/// C01/C02 for a whole range: `||` alternatives unite
+pub proof fn lemma_c01_range(r: Range, cs: Seq<Seq<KCmp>>, v: VKey)
+    requires r.0@.len() == cs.len(), wfk(v), forall|k: int| 0 <= k < cs.len() ==> repr(#[trigger] r.0@[k], cs[k])
+    ensures rsat(r, v) <==> exists|k: int| 0 <= k < cs.len() && npm_sat(#[trigger] cs[k], v)
+{
+    if rsat(r, v) { let i = choose|i: int| 0 <= i < r.0@.len() && i < r.0@.len() && sat(#[trigger] r.0@[i], v); lemma_repr_sat(r.0@[i], cs[i], v); }
+    if exists|k: int| 0 <= k < cs.len() && npm_sat(#[trigger] cs[k], v) {
+        let k = choose|k: int| 0 <= k < cs.len() && npm_sat(#[trigger] cs[k], v);
+        lemma_repr_sat(r.0@[k], cs[k], v);
+        assert(sat(r.0@[k], v));
+    }
+}
+/// `a || b`: satisfied by exactly the versions that satisfy a or b
+pub proof fn lemma_c02_union(a: Seq<BoundSet>, b: Seq<BoundSet>, v: VKey)
+    ensures any_sat(a + b, (a + b).len() as int, v) == (any_sat(a, a.len() as int, v) || any_sat(b, b.len() as int, v))
+{
+    let t = a + b;
+    if any_sat(t, t.len() as int, v) {
+        let i = choose|i: int| 0 <= i < t.len() && i < t.len() && sat(#[trigger] t[i], v);
+        if i < a.len() { assert(t[i] == a[i]); assert(any_sat(a, a.len() as int, v)); } else { assert(t[i] == b[i - a.len()]); assert(any_sat(b, b.len() as int, v)); }
+    }
+    if any_sat(a, a.len() as int, v) { let i = choose|i: int| 0 <= i < a.len() && i < a.len() && sat(#[trigger] a[i], v); assert(t[i] == a[i]); }
+    if any_sat(b, b.len() as int, v) { let i = choose|i: int| 0 <= i < b.len() && i < b.len() && sat(#[trigger] b[i], v); assert(t[i + a.len()] == b[i]); }
+}
+/// order of comparators never matters, and `a b` is the conjunction of `a` and `b`:
+/// release: satisfies both; prerelease: within the bounds of both and satisfies at least one; empty when nothing is within both
+pub proof fn lemma_c02_order_irrelevant(s1: Seq<Option<BoundSet>>, s2: Seq<Option<BoundSet>>, r1: Seq<BoundSet>, r2: Seq<BoundSet>, v: VKey)
+    requires conj_post(s1, r1), conj_post(s2, r2),
+        forall|i: int| 0 <= i < s1.len() ==> exists|j: int| 0 <= j < s2.len() && #[trigger] s1[i] == #[trigger] s2[j],
+        forall|j: int| 0 <= j < s2.len() ==> exists|i: int| 0 <= i < s1.len() && #[trigger] s2[j] == #[trigger] s1[i],
+    ensures (r1.len() == 1 && sat(r1[0], v)) <==> (r2.len() == 1 && sat(r2[0], v)),
+            (r1.len() == 1 && within(r1[0], v)) <==> (r2.len() == 1 && within(r2[0], v)),
+{
+    let n1 = s1.len() as int; let n2 = s2.len() as int;
+    lemma_perm_conj(s1, s2, v); lemma_perm_conj(s2, s1, v);
+    if r1.len() == 0 && has_some(s1, n1) { assert(!all_within(s1, n1, v)); }
+    if r2.len() == 0 && has_some(s2, n2) { assert(!all_within(s2, n2, v)); }
+    if r1.len() == 1 { assert(within(r1[0], v) <==> all_within(s1, n1, v)); assert(within(r1[0], v) ==> (gate(r1[0], v) <==> some_gate(s1, n1, v))); }
+    if r2.len() == 1 { assert(within(r2[0], v) <==> all_within(s2, n2, v)); assert(within(r2[0], v) ==> (gate(r2[0], v) <==> some_gate(s2, n2, v))); }
+}
+pub proof fn lemma_perm_conj(s1: Seq<Option<BoundSet>>, s2: Seq<Option<BoundSet>>, v: VKey)
+    requires forall|i: int| 0 <= i < s1.len() ==> exists|j: int| 0 <= j < s2.len() && #[trigger] s1[i] == #[trigger] s2[j],
+    ensures all_within(s2, s2.len() as int, v) ==> all_within(s1, s1.len() as int, v),
+            some_gate(s1, s1.len() as int, v) ==> some_gate(s2, s2.len() as int, v),
+            has_some(s1, s1.len() as int) ==> has_some(s2, s2.len() as int),
+{
+    if all_within(s2, s2.len() as int, v) {
+        assert forall|i: int| 0 <= i < s1.len() && i < s1.len() implies ((#[trigger] s1[i]) matches Some(b) ==> within(b, v)) by {
+            let j = choose|j: int| 0 <= j < s2.len() && s1[i] == #[trigger] s2[j];
+            assert(s2[j] matches Some(b) ==> within(b, v));
+        }
+    }
+    if some_gate(s1, s1.len() as int, v) {
+        let i = choose|i: int| 0 <= i < s1.len() && i < s1.len() && ((#[trigger] s1[i]) matches Some(b) && gate(b, v));
+        let j = choose|j: int| 0 <= j < s2.len() && s1[i] == #[trigger] s2[j];
+        assert(s2[j] matches Some(b) && gate(b, v));
+    }
+    if has_some(s1, s1.len() as int) {
+        let i = choose|i: int| 0 <= i < s1.len() && i < s1.len() && (#[trigger] s1[i]) is Some;
+        let j = choose|j: int| 0 <= j < s2.len() && s1[i] == #[trigger] s2[j];
+        assert(s2[j] is Some);
+    }
+}
